@@ -39,6 +39,8 @@ if REPO != "/repo" or "/repo" not in sys.path:
 sys.dont_write_bytecode = True
 
 import argparse  # noqa: E402
+import warnings  # noqa: E402
+warnings.filterwarnings("ignore", category=DeprecationWarning, message=".*fork.*")
 import hashlib  # noqa: E402
 import importlib  # noqa: E402
 import json  # noqa: E402
@@ -270,6 +272,7 @@ def main():
     mod = importlib.import_module("props.%s" % prop.lower())
     obs = mod.generate(args.tier, seed)
     obs.append(_lemma_ob(prop))
+    obs.append(_history_ob(prop, obs[:-1], seed))
     if args.only:
         obs = [o for o in obs if args.only in o.id]
     ids = [o.id for o in obs]
@@ -390,6 +393,40 @@ def _lemma_ob(prop):
                      funcs=["engine/chplug.py rewrite rules (bit operations, branch-free sign extension)"],
                      skeleton="QF_BV lemmas for the bit-operation rewrite rules, widths 8-64", bound="84 lemmas",
                      timeout=120, oracle="z3 (cvc5 cross-check on a sample)")
+
+
+def _history_ob(prop, obs, seed, n_obs=40):
+    """state kept between calls (a memo cache keyed too coarsely, a table updated in place) makes a function of the input
+    depend on the history of the process.  The symbolic obligations usually notice (paths of one obligation share a
+    process), but only by luck of path order; this sweep makes it systematic on the real code: for a seeded sample of
+    obligations, inputs a and b (b = a with one parameter changed), b alone must pass and b after a must pass too."""
+    cands = [o for o in obs if o.params and o.body is not None and o.direct is None]
+    random.Random(seed + 17).shuffle(cands)
+    cands = cands[:n_obs]
+
+    def q():
+        n = 0
+        for o in cands:
+            n += 1
+            h = history_probe(o, seed, max_seqs=2)
+            if h is not None:
+                return ("refuted", "%s: after %r, %r: %s" % (o.id, h[0], h[1], h[2]), {"obligation": o.id, "first": h[0], "then": h[1]}, 0, 0.0)
+        return "confirmed", "%d obligations, two-call sequences" % n, None, 0, 0.0
+
+    def replay(obligation, first, then):
+        o = next((x for x in obs if x.id == obligation), None)
+        if o is None:
+            return None
+        if isolated_replay(o, [then]):
+            return None
+        d = isolated_replay(o, [first, then])
+        return ("history-dependent (%s): after the same operation on %r, %s (alone, %r gives the right result)" % (obligation, first, d, then)) if d else None
+
+    return runner.Ob(id="%s.history-sweep" % prop, prop=prop, params=[], body=None, direct=q, replay=replay,
+                     funcs=["the functions of the sampled obligations, called twice in one process"],
+                     skeleton="two-call sequences (a, then b = a with one parameter changed) for %d sampled obligations, real code, forked processes" % len(cands),
+                     bound="%d obligations x <= 2 sequences (concrete)" % len(cands), timeout=600,
+                     oracle="the obligation's own assertion: b alone passes => b after a passes")
 
 
 def _short(cex):
